@@ -109,6 +109,16 @@ class SymCtx(_CtxBase):
         if isinstance(cond, SymBool):
             self.eng.hint(cond)
 
+    def eq(self, a, b):
+        """exact equality in the symbolic run (reals); tolerant equality in concrete float replays"""
+        from .util import eq_struct
+        return eq_struct(a, b)
+
+    def close(self, a, b, rtol=1e-12):
+        """|a-b| <= rtol*(|a|+|b|) element-wise (for claims whose code contains rounded float constants)"""
+        from .util import close_struct
+        return close_struct(a, b, rtol)
+
     def claim(self, cond, label, detail=None):
         self.reached[label] = self.reached.get(label, 0) + 1
         st, model = self.eng.check_claim(cond)
@@ -187,6 +197,12 @@ class ConcCtx(_CtxBase):
     def hint(self, cond):
         pass
 
+    def eq(self, a, b, rtol=1e-9, atol=1e-12):
+        return obs_equal(_plain(a), _plain(b), rtol, atol)
+
+    def close(self, a, b, rtol=1e-12):
+        return obs_equal(_plain(a), _plain(b), 1e-9, 1e-12)
+
     def claim(self, cond, label, detail=None):
         self.reached[label] = self.reached.get(label, 0) + 1
         ok = bool(cond)
@@ -218,11 +234,23 @@ def _jsonable(o):
     return repr(o)
 
 
-def obs_equal(a, b, rtol):
+def _plain(o):
+    if isinstance(o, np.ndarray):
+        return [_plain(v) for v in o.tolist()]
+    if isinstance(o, (list, tuple)):
+        return [_plain(v) for v in o]
+    if isinstance(o, dict):
+        return {k: _plain(v) for k, v in o.items()}
+    if hasattr(o, "tolist") and not isinstance(o, (np.generic,)):
+        return _plain(o.tolist())
+    return o
+
+
+def obs_equal(a, b, rtol, atol=0.0):
     if isinstance(a, dict) and isinstance(b, dict):
-        return a.keys() == b.keys() and all(obs_equal(a[k], b[k], rtol) for k in a)
+        return a.keys() == b.keys() and all(obs_equal(a[k], b[k], rtol, atol) for k in a)
     if isinstance(a, (list, tuple)) and isinstance(b, (list, tuple)):
-        return len(a) == len(b) and all(obs_equal(x, y, rtol) for x, y in zip(a, b))
+        return len(a) == len(b) and all(obs_equal(x, y, rtol, atol) for x, y in zip(a, b))
     if isinstance(a, (bool, np.bool_)) or isinstance(b, (bool, np.bool_)):
         return bool(a) == bool(b)
     if isinstance(a, (int, float, np.integer, np.floating)) and isinstance(b, (int, float, np.integer, np.floating)):
@@ -231,8 +259,8 @@ def obs_equal(a, b, rtol):
             return math.isnan(a) and math.isnan(b)
         if a == b:
             return True
-        if rtol and math.isfinite(a) and math.isfinite(b):
-            return abs(a - b) <= rtol * max(abs(a), abs(b), 1e-300)
+        if (rtol or atol) and math.isfinite(a) and math.isfinite(b):
+            return abs(a - b) <= max(rtol * max(abs(a), abs(b)), atol)
         return False
     return a == b
 
@@ -346,7 +374,7 @@ def run_task(task):
             failed, cobs, outside, err = replay(values, eng.uf_table(model))
             eng.stats.witness_replays += 1
             cobs_j = eng.eval_obs(model, cobs) if cobs is not None else None
-            if outside or err or failed or not obs_equal(expected, cobs_j, rtol):
+            if outside or err or failed or not obs_equal(expected, cobs_j, rtol, getattr(H, "ATOL", 0.0)):
                 out["errors"].append({"kind": "encoding_mismatch", "case": case,
                                       "inputs": {k: str(v) for k, v in values.items()},
                                       "symbolic": _jsonable(expected), "concrete": _jsonable(cobs_j),
